@@ -10,6 +10,9 @@ M = core.MANAGER
 
 
 def check(ctx):
+    from . import core8
+
+    core8.body_flag_defaults(ctx, "C11")
     core3.mm_validate_call_tree(ctx, "C11")
     core3.call_paths_exclusive(ctx, "C11")
     core3.exclusive_with(ctx, "C11")
